@@ -5,3 +5,22 @@ package transform
 // Shim for property C07: the build-time role constant of the DNS transform (true: the 16-byte
 // answer record is written and the header announces one answer).
 const VerifC07DNSServer = dnsServer
+
+// VerifC07PacketLens returns the number of bytes the real decodePacket consumes for each DNS packet
+// of the wire b (the packet boundaries), stopping at the first packet that does not decode.
+func VerifC07PacketLens(b []byte) (l []int) {
+	defer func() { recover() }()
+	for i := 0; i < len(b); {
+		n, err := decodePacket(discard{}, b[i:])
+		if err != nil || n <= 0 {
+			return l
+		}
+		l = append(l, n)
+		i += n
+	}
+	return l
+}
+
+type discard struct{}
+
+func (discard) Write(b []byte) (int, error) { return len(b), nil }
